@@ -55,8 +55,9 @@ def catParts (fuel : Nat) (v : Node) : List Node :=
   | fuel + 1 =>
     match v with
     | .mk .array _ [.mk .list _ elems] =>
-      if elems.all (fun e => match e with | .mk .arg _ [_] => true | _ => false) then
-        elems.flatMap fun e => match e with | .mk .arg _ [x] => catParts fuel x | _ => []
+      -- a spread element contributes the (flattened) elements of its operand: `[...xs, a]` and `[xs, a]` normalise alike
+      if elems.all (fun e => match e with | .mk .arg _ [_] => true | .mk .spreadArg _ [_] => true | _ => false) then
+        elems.flatMap fun e => match e with | .mk .arg _ [x] => catParts fuel x | .mk .spreadArg _ [x] => catParts fuel x | _ => []
       else [v]
     | .mk (.other "cat") _ parts => parts
     | v => [v]
@@ -616,12 +617,12 @@ def denoteAttr (c : DCtx) (isComp : Bool) (tagN : Node) (allAttrs : List Node) (
             addPropC c acc (nBin "+" (nStr "onUpdate:") e) (nSetter d.value)
         else
           let acc := if d.arg.isSome then addFeat acc "vmodel-arg-on-element" else acc
-          let arg := match d.arg with | some a => a | none => S "undef" [] []
+          let arg := match d.arg with | some (.mk .unary ["void"] [.mk .num ["0"] _]) => S "undef" [] [] | some a => a | none => S "undef" [] []
           let dir := S "dir" [] [S "builtin" [modelDirOf tagN allAttrs] [], d.value, arg, modsNode d.mods]
           addProp c { acc with dirs := acc.dirs ++ [dir] } "onUpdate:modelValue" (nSetter d.value)
       else
         let def_ := if d.name == "show" then S "builtin" ["vShow"] [] else S "resolveDir" [d.name] []
-        let arg := match d.arg with | some a => a | none => S "undef" [] []
+        let arg := match d.arg with | some (.mk .unary ["void"] [.mk .num ["0"] _]) => S "undef" [] [] | some a => a | none => S "undef" [] []
         let acc := if d.ood then addFeat acc "ood-directive-value" else acc
         { acc with dirs := acc.dirs ++ [S "dir" [] [def_, d.value, arg, modsNode d.mods]] }
     else
